@@ -6,7 +6,9 @@ package sarama
 
 import (
 	"bytes"
+	"encoding/json"
 	"fmt"
+	"os"
 	"sort"
 	"strings"
 	"testing"
@@ -636,6 +638,10 @@ func vfProdSpec(id, emph string, oracles ...func(*vfProdRun) *vfcore.Failure) vf
 				}
 			}
 			r.Count("exec_ms", int64(time.Since(t0)/time.Millisecond))
+			if dump := os.Getenv("VF_DUMP_HISTORY"); dump != "" {
+				b, _ := json.MarshalIndent(map[string]interface{}{"case": c, "history": run.historyForFailure(), "symptom": "dump", "message": "history dump"}, "", " ")
+				_ = os.WriteFile(dump, b, 0o644)
+			}
 			failed, firstFail := vfClassifyProd(run, r)
 			for _, o := range oracles {
 				if f := o(run); f != nil {
